@@ -15,6 +15,14 @@
 // After the last op the map goes out of scope: line "dtor", then the destructor's event line.
 // Raw scripts (compared with the pointer-level model only) additionally use the op "rh": the private rehash() is
 // called directly, so that it also runs at loads where the new capacity is not a multiple of the old one.
+// The hasher: line 1 is "hash <kind> [tmp]".  Kinds 0..4: frg::hash_map<uint64_t, HV, Hasher, LogAlloc> with the STATEFUL
+// hasher below, constructed from an lvalue Hasher object that belongs to the harness and outlives the map; the op
+// "reseed <kind>" CHANGES that object afterwards (the map must keep using the copy it made at construction -- the model's
+// hash is fixed at construction, both model drivers ignore the line).  With "tmp" the map is constructed from a temporary
+// Hasher (dead after the constructor call).  Kind 5: frg::hash_map<int64_t, HV, frg::hash<int64_t>, LogAlloc> -- signed keys
+// (scripts carry them as their 64-bit two's complement pattern) and the library's own hasher; get() is called with the
+// key as int64_t, long and, where the value fits, int and short: the hash must be a function of the key VALUE, whatever
+// C++ type the templated get<KeyCompatible>() is handed (the model's hash is a function N -> N of the key value).
 // `harness --sizes` prints sizeof(chain *) and sizeof(chain) (parameters of the model).
 #include <unordered_map>
 #include <algorithm>
@@ -24,6 +32,7 @@
 struct Hasher {
 	// returns a 64-bit value on purpose: hash_map reduces it with (unsigned int) in every bucket
 	// computation, the model with "mod 2^32" -- kinds 0 and 4 produce values above 2^32
+	// STATEFUL on purpose (the state selects the function): a map must copy its hasher at construction
 	int kind = 0;   // 0 identity, 1 constant, 2 mod3, 3 frg::hash<uint64_t>, 4 high bits (k >> 28)
 	uint64_t operator()(uint64_t k) const {
 		switch(kind) {
@@ -107,12 +116,15 @@ struct HV : vh::TV {   // tracked value that also reports in-block events
 };
 
 using Map = frg::hash_map<uint64_t, HV, Hasher, LogAlloc>;
+using SMap = frg::hash_map<int64_t, HV, frg::hash<int64_t>, LogAlloc>;     // signed keys, the library's own hasher
 static_assert(sizeof(Map::chain) < 10 * sizeof(Map::chain *), "a node block is smaller than the smallest table");
+static_assert(sizeof(SMap::chain) == sizeof(Map::chain) && sizeof(SMap::chain *) == sizeof(Map::chain *), "--sizes holds for both instantiations");
 
 // what the map must own after every op, counted on the registries (not on the model)
+template<class Map>
 static void balance(Map &m, const char *after) {
 	size_t want_blocks = m.size() + (m._capacity ? 1 : 0);
-	size_t want_bytes = m.size() * sizeof(Map::chain) + m._capacity * sizeof(Map::chain *);
+	size_t want_bytes = m.size() * sizeof(typename Map::chain) + m._capacity * sizeof(typename Map::chain *);
 	size_t bytes = 0; for(auto &b : vh::g_alloc.blocks) bytes += b.second;
 	if(vh::g_alloc.blocks.size() != want_blocks || bytes != want_bytes)
 		vh::oracle(vh::g_alloc.blocks.size() > want_blocks ? "leak-block" : "lifetime",
@@ -127,48 +139,68 @@ static void balance(Map &m, const char *after) {
 }
 
 // the raw pointer structure: _table, _capacity, _size and every chain (no lifetime/allocator events are produced)
+template<class Map>
 static void dump_table(Map &m) {
 	printf("t %d %zu %zu", block_of(m._table), (size_t)m._capacity, (size_t)m._size);
 	size_t limit = m._size + 8;
 	for(size_t b = 0; b < m._capacity; b++) {
-		Map::chain *item = m._table[b];
+		typename Map::chain *item = m._table[b];
 		if(!item) continue;
 		printf(" %zu=", b);
 		size_t steps = 0;
 		for(; item; item = item->next, steps++) {
 			if(steps) printf(",");
 			if(steps > limit) { printf("CYCLE"); break; }
-			printf("%d:%llu:%llu", block_of(item), (unsigned long long)item->entry.template get<0>(),
+			printf("%d:%llu:%llu", block_of(item), (unsigned long long)(uint64_t)item->entry.template get<0>(),
 				(unsigned long long)item->entry.template get<1>().v);
 		}
 	}
 	printf("\n");
 }
 
-static void body(const vh::Lines &ls) {
-	Hasher h;
-	size_t start = 0;
-	if(!ls.empty()) {
-		auto t = vh::split(ls[0]);
-		if(t.size() == 2 && t[0] == "hash") { h.kind = atoi(t[1].c_str()); start = 1; }
-	}
-	g_blk.clear(); g_inblock.clear(); g_next_id = 0; g_log_on = true; g_ev.clear();
-	std::unordered_map<uint64_t, uint64_t> ref;
-	{
-		Map m{h};
+// get() is a template over the argument type: call it with the key as Key and as every other integer type the value
+// fits in; all calls must return the same node (the hash of a key must not depend on the C++ type it is passed as)
+template<class T, class M>
+static void get_as(M &m, T k, HV *want, const char *ty, unsigned long long shown) {
+	HV *q = m.get(k);
+	if(q != want) vh::oracle("refmap", "get((%s)%llu) returns %s but get(Key) returns %s", ty, shown, q ? "a value" : "nullptr", want ? "a value" : "nullptr");
+}
+static HV *get_all(Map &m, uint64_t k) {
+	HV *p = m.get(k);
+	get_as(m, (unsigned long)k, p, "unsigned long", k);
+	if(k <= 0x7fffffffULL) { get_as(m, (int)k, p, "int", k); get_as(m, (unsigned int)k, p, "unsigned", k); }
+	if(k <= 0x7fffULL) get_as(m, (short)k, p, "short", k);
+	return p;
+}
+static HV *get_all(SMap &m, int64_t k) {
+	HV *p = m.get(k);
+	get_as(m, (long)k, p, "long", (uint64_t)k);
+	if(k >= INT32_MIN && k <= INT32_MAX) get_as(m, (int)k, p, "int", (uint64_t)k);
+	if(k >= INT16_MIN && k <= INT16_MAX) get_as(m, (short)k, p, "short", (uint64_t)k);
+	if(k >= INT8_MIN && k <= INT8_MAX) get_as(m, (signed char)k, p, "signed char", (uint64_t)k);
+	return p;
+}
+
+// the script on one map; caller_hasher is the harness's own Hasher object ("reseed" changes it)
+template<class K, class M>
+static void run_ops(M &m, const vh::Lines &ls, size_t start, Hasher &caller_hasher, std::unordered_map<uint64_t, uint64_t> &ref) {
 		for(size_t i = start; i < ls.size(); i++) {
 			auto t = vh::split(ls[i]);
 			const std::string &o = t[0];
 			g_ev.clear(); g_op_allocs = g_op_frees = g_op_cons = g_op_des = 0;
 			size_t size_before = m.size();
-			if(o == "i") {
+			if(o == "reseed") {
+				// the CALLER's hasher object changes state; the map owns a copy made at construction and must not notice
+				caller_hasher.kind = atoi(t[1].c_str());
+				continue;
+			} else if(o == "i") {
 				uint64_t k = vh::u64(t[1]), v = vh::u64(t[2]);
-				m.insert(k, HV{v});
+				m.insert((K)k, HV{v});
 				if(!ref.count(k)) ref[k] = v;   // inserting a present key is outside the property
 				printf("u\n");
 			} else if(o == "x") {
 				uint64_t k = vh::u64(t[1]), v = vh::u64(t[2]);
-				HV &r = m[k];
+				HV &r = m[(K)k];
 				bool had = ref.count(k);
 				uint64_t old = r.get();
 				if(had) { printf("v %llu\n", (unsigned long long)old);
@@ -179,8 +211,8 @@ static void body(const vh::Lines &ls) {
 				ref[k] = v;
 			} else if(o == "g") {
 				uint64_t k = vh::u64(t[1]);
-				HV *p = m.get(k);
-				auto it = m.find(k);
+				HV *p = get_all(m, (K)k);
+				auto it = m.find((K)k);
 				if((p != nullptr) != bool(it)) vh::oracle("refmap", "get and find disagree on key %llu", (unsigned long long)k);
 				uint64_t val = p ? p->get() : 0;
 				if(p) printf("v %llu\n", (unsigned long long)val); else printf("v none\n");
@@ -189,7 +221,7 @@ static void body(const vh::Lines &ls) {
 				else if(p && val != rit->second) vh::oracle("refmap", "key %llu: wrong value", (unsigned long long)k);
 			} else if(o == "r") {
 				uint64_t k = vh::u64(t[1]);
-				auto r = m.remove(k);
+				auto r = m.remove((K)k);
 				if(r) printf("v %llu\n", (unsigned long long)r->get()); else printf("v none\n");
 				auto rit = ref.find(k);
 				if((rit != ref.end()) != bool(r)) vh::oracle("refmap", "remove(%llu) %s but reference %s", (unsigned long long)k, r ? "returned a value" : "returned nothing", rit != ref.end() ? "has it" : "does not");
@@ -200,7 +232,7 @@ static void body(const vh::Lines &ls) {
 				std::vector<std::pair<uint64_t, uint64_t>> seen;
 				size_t n = 0;
 				for(auto it = m.begin(); it != m.end(); ++it) {
-					uint64_t k = it->template get<0>(), v = it->template get<1>().get();
+					uint64_t k = (uint64_t)it->template get<0>(), v = it->template get<1>().get();
 					printf(" %llu:%llu", (unsigned long long)k, (unsigned long long)v);
 					seen.push_back({k, v});
 					if(++n > ref.size() + 8) { vh::oracle("refmap", "iteration does not terminate within size()+8 steps"); break; }
@@ -229,12 +261,34 @@ static void body(const vh::Lines &ls) {
 		// every reference key must still be found at the end (cheap full sweep; not part of the event log)
 		g_log_on = false;
 		for(auto &kv : ref) {
-			HV *p = m.get(kv.first);
+			HV *p = m.get((K)kv.first);
 			if(!p) { vh::oracle("refmap", "final sweep: present key %llu not found", (unsigned long long)kv.first); break; }
 			if(p->get() != kv.second) { vh::oracle("refmap", "final sweep: key %llu wrong value", (unsigned long long)kv.first); break; }
 		}
 		if(m.size() != ref.size()) vh::oracle("refmap", "final size() = %zu, reference %zu", m.size(), ref.size());
 		g_log_on = true; g_ev.clear();
+}
+
+static void body(const vh::Lines &ls) {
+	Hasher h;                       // the harness's hasher object: outlives every map, changed by "reseed"
+	bool temporary = false;
+	size_t start = 0;
+	if(!ls.empty()) {
+		auto t = vh::split(ls[0]);
+		if(t.size() >= 2 && t[0] == "hash") { h.kind = atoi(t[1].c_str()); start = 1; temporary = t.size() >= 3 && t[2] == "tmp"; }
+	}
+	g_blk.clear(); g_inblock.clear(); g_next_id = 0; g_log_on = true; g_ev.clear();
+	std::unordered_map<uint64_t, uint64_t> ref;
+	if(h.kind == 5) {
+		frg::hash<int64_t> hs;
+		SMap m{hs};
+		run_ops<int64_t>(m, ls, start, h, ref);
+	} else if(temporary) {
+		Map m{Hasher{h.kind}};      // the hasher argument dies at the end of this declaration
+		run_ops<uint64_t>(m, ls, start, h, ref);
+	} else {
+		Map m{h};
+		run_ops<uint64_t>(m, ls, start, h, ref);
 	}
 	printf("dtor\ne%s\n", g_ev.c_str());
 	vh::g_life.check_empty("hash_map");
